@@ -193,3 +193,86 @@ Proof.
   - apply (open_model_satisfies_spec l []); [intros c []|exact Hwf].
   - apply open_model_passes.
 Qed.
+
+(* ---- one write racing one ACL record: whatever the scheduler decides (the write is sequenced before the record, after
+   it, or fails), what the model presents satisfies spec_C05_ilv and passes the correspondence test *)
+Lemma model_rounds_app : forall l1 l2 cs,
+  model_rounds cs (l1 ++ l2) = model_rounds cs l1 ++ model_rounds (content_after cs l1) l2.
+Proof.
+  induction l1 as [|s r IH]; intros l2 cs; cbn [app model_rounds content_after]; [reflexivity|].
+  now rewrite IH.
+Qed.
+
+Lemma ilv_rounds_model : forall s, ilv_rounds (model_ilv s) = model_rounds [] (is_pre s ++ [is_last s]).
+Proof.
+  intros s. unfold ilv_rounds, model_ilv. cbn [i_pre i_write i_retry i_readers].
+  rewrite model_rounds_app. cbn [model_rounds]. f_equal. f_equal. f_equal.
+  unfold is_last. destruct (is_dec s); cbn [rs_writes rs_gen rs_tried map hd_error opt_list app]; try reflexivity.
+  destruct (is_can1 s); cbn [map hd_error opt_list app]; reflexivity.
+Qed.
+
+Lemma ilv_seq_ok_model : forall s, is_valid s = true -> ilv_seq_ok (model_ilv s) = true.
+Proof.
+  intros s Hv. unfold is_valid in Hv. unfold ilv_seq_ok, named_gen, model_ilv, is_last.
+  cbn [i_write i_retry i_head i_gen0 i_gen1 i_fired i_can0 i_can1].
+  destruct (is_dec s); cbn [rs_writes rs_gen rs_tried map hd_error].
+  - change (0 =? 0) with true. cbn iota. unfold model_wobs. cbn [w_gen]. rewrite N.eqb_refl. reflexivity.
+  - change (1 =? 0) with false. change (1 =? 1) with true. cbn iota. unfold model_wobs. cbn [w_gen].
+    apply andb_true_iff in Hv. destruct Hv as [Hf _]. rewrite N.eqb_refl, Hf. reflexivity.
+  - rewrite Hv. cbn [andb]. destruct (is_can1 s); cbn [map hd_error negb andb]; [|reflexivity].
+    unfold model_wobs. cbn [w_gen]. apply N.eqb_refl.
+Qed.
+
+Theorem ilv_model_satisfies_spec : forall s,
+  is_valid s = true -> rounds_wf [] (is_pre s ++ [is_last s]) ->
+  spec_C05_ilv (model_ilv s) = true /\ ilv_model_ok (model_ilv s) = true.
+Proof.
+  intros s Hv Hwf. destruct (open_model_satisfies_spec_from_start _ Hwf) as [Hspec Hmod].
+  rewrite <- ilv_rounds_model in Hspec, Hmod. split.
+  - unfold spec_C05_ilv. now rewrite (ilv_seq_ok_model s Hv), Hspec.
+  - unfold ilv_model_ok. rewrite Hmod, andb_true_r. unfold is_valid in Hv. unfold model_ilv.
+    cbn [i_write i_head i_can0 i_can1]. unfold is_last.
+    destruct (is_dec s); cbn [rs_writes map hd_error]; try reflexivity.
+    + change (0 =? 0) with true. cbn iota. exact Hv.
+    + change (1 =? 0) with false. change (1 =? 1) with true. cbn iota. apply andb_true_iff in Hv. now destruct Hv.
+Qed.
+
+(* a stored change that names the record's head / generation but opens with another generation is refused by the
+   predicate, whatever else was observed: it cannot be explained by sequencing the write before the record *)
+Lemma list_eqb_N_true : forall a b : list N, list_eqb N.eqb a b = true -> a = b.
+Proof.
+  induction a as [|x a IH]; intros [|y b] H; cbn [list_eqb] in H; try discriminate; [reflexivity|].
+  apply andb_true_iff in H. destruct H as [Hxy Hab]. apply N.eqb_eq in Hxy. subst y. f_equal. now apply IH.
+Qed.
+
+Lemma wobs_ok_opens : forall w, wobs_ok w = true -> w_opens w = [w_key_id w] /\ w_key_id w = w_gen w.
+Proof.
+  intros w H. unfold wobs_ok in H.
+  apply andb_true_iff in H. destruct H as [H Hop].
+  apply andb_true_iff in H. destruct H as [H _].
+  apply andb_true_iff in H. destruct H as [Hid _].
+  split; [now apply list_eqb_N_true|now apply N.eqb_eq].
+Qed.
+
+Lemma spec_open_last_writes : forall l all rd,
+  spec_open all (l ++ [rd]) = true -> forallb wobs_ok (rd_writes rd) = true.
+Proof.
+  induction l as [|r0 l IH]; intros all rd H; cbn [app spec_open] in H.
+  - apply andb_true_iff in H. destruct H as [H _]. apply andb_true_iff in H. now destruct H.
+  - apply andb_true_iff in H. destruct H as [_ H]. now apply (IH _ _ H).
+Qed.
+
+Theorem ilv_written_under_named_head : forall x w,
+  spec_C05_ilv x = true -> i_write x = Some w ->
+  exists g, named_gen x = Some g /\ w_key_id w = g /\ w_opens w = [g].
+Proof.
+  intros x w H Hw. unfold spec_C05_ilv in H. apply andb_true_iff in H. destruct H as [Hseq Hspec].
+  unfold ilv_seq_ok in Hseq. rewrite Hw in Hseq.
+  destruct (named_gen x) as [g|]; [|discriminate Hseq].
+  apply andb_true_iff in Hseq. destruct Hseq as [Hseq _]. apply andb_true_iff in Hseq. destruct Hseq as [Hg _].
+  apply N.eqb_eq in Hg.
+  unfold spec_C05_open, ilv_rounds in Hspec. apply spec_open_last_writes in Hspec. cbn [rd_writes] in Hspec.
+  rewrite Hw in Hspec. cbn [opt_list app forallb] in Hspec. apply andb_true_iff in Hspec. destruct Hspec as [Hok _].
+  apply wobs_ok_opens in Hok. destruct Hok as [Hop Hid].
+  exists g. split; [reflexivity|]. rewrite Hid, Hg in *. split; [reflexivity|exact Hop].
+Qed.
